@@ -312,4 +312,74 @@ def dec2ddm(dec):""", note='sign flag dropped in dec2dms: wrong for -1 < x < 0')
          old="    return (ellipsoid.semimaj /\n            sqrt(1 - ellipsoid.ecc1sq * (sin(radians(lat)) ** 2)))",
          new="    ellipsoid.last_nu_lat = lat\n    return (ellipsoid.semimaj /\n            sqrt(1 - ellipsoid.ecc1sq * (sin(radians(lat)) ** 2)))",
          note='nu() stores a scratch attribute on the shipped ellipsoid'),
+    # ---- C06 / C07 / C11 / C13: Helmert family -------------------------------------------------------------------------
+    dict(id='h-transpose-R', props=['C06'], file='geodepy/transform.py',
+         old="""    rotation = np.array([[1., rz, -ry],
+                         [-rz, 1., rx],
+                         [ry, -rx, 1.]])""",
+         new="""    rotation = np.array([[1., -rz, ry],
+                         [rz, 1., -rx],
+                         [-ry, rx, 1.]])""", note='rotation matrix transposed (sign convention)'),
+    dict(id='h-arcsec-factor', props=['C06'], file='geodepy/transform.py', old="    ry = radians(trans.ry / 3600)", new="    ry = radians(trans.ry / 3660)",
+         note='arc-second factor of one rotation'),
+    dict(id='h-ppm', props=['C06'], file='geodepy/transform.py', old="    scale = 1 + trans.sc / 1000000", new="    scale = 1 + trans.sc / 100000", note='ppm factor 1e6 -> 1e5'),
+    dict(id='h-jac-sign', props=['C06', 'C13'], file='geodepy/transform.py', old="        j_mat[1, 6] = -scale * xyz_before[0, 0]", new="        j_mat[1, 6] = scale * xyz_before[0, 0]",
+         note='one Jacobian sign (covariance only)'),
+    dict(id='h-sd-unit', props=['C06', 'C13'], file='geodepy/transform.py', old="        q_mat[4, 4] = radians(trans.tf_sd.sd_rx/3600)**2", new="        q_mat[4, 4] = radians(trans.tf_sd.sd_rx/60)**2",
+         note='sd_rx/3600 -> /60 (covariance only)'),
+    dict(id='h-year-365', props=['C07'], file='geodepy/constants.py', old="            timediff = (other - self.ref_epoch).days/365.25", new="            timediff = (other - self.ref_epoch).days/365",
+         note='365.25 -> 365'),
+    dict(id='h-elapsed-sign', props=['C07'], file='geodepy/constants.py', old="            timediff = (other - self.ref_epoch).days/365.25", new="            timediff = abs((other - self.ref_epoch).days)/365.25",
+         note='elapsed time loses its sign (epochs before the reference epoch)'),
+    dict(id='h-round4', props=['C07'], file='geodepy/constants.py', old="                                  round(self.rz + (self.d_rz * timediff), 8),", new="                                  round(self.rz + (self.d_rz * timediff), 6),",
+         note='propagated rz rounded to 6 decimals'),
+    dict(id='h-rate-sc', props=['C07', 'C11'], file='geodepy/constants.py', old="                                  round(self.sc + (self.d_sc * timediff), 8),", new="                                  round(self.sc, 8),",
+         note='scale rate not applied'),
+    dict(id='cat-digit', props=['C11'], file='geodepy/constants.py', old="    itrf_from='ITRF2008', itrf_to='ITRF96', ref_epoch=date(2000, 1, 1),\n    tx=4.8, ty=2.6, tz=-33.2,", new="    itrf_from='ITRF2008', itrf_to='ITRF96', ref_epoch=date(2000, 1, 1),\n    tx=4.8, ty=2.9, tz=-33.2,",
+         note='one digit of an ITRF table entry that takes part in triples'),
+    dict(id='cat-neg-rate', props=['C11'], file='geodepy/constants.py', old="                              -self.d_rx, -self.d_ry, -self.d_rz,", new="                              -self.d_rx, -self.d_ry, self.d_rz,",
+         note='a rate not negated in __neg__'),
+    dict(id='cat-iers-rot', props=['C11'], file='geodepy/constants.py', old="                          round(-rx / 1000, 8), round(-ry / 1000, 8),", new="                          round(-rx / 1000, 8), round(ry / 1000, 8),",
+         note='sign of one rotation in iers2trans'),
+    dict(id='mga-reverse-set', props=['C13'], file='geodepy/transform.py', old="    x20, y20, z20, vcv94 = conform7(x94, y94, z94, -gda94_to_gda2020, vcv=vcv)", new="    x20, y20, z20, vcv94 = conform7(x94, y94, z94, gda94_to_gda2020, vcv=vcv)",
+         note='forward set used in the reverse wrapper'),
+    dict(id='mga-height', props=['C13'], file='geodepy/transform.py',
+         old="""        vcv = vcv_local2cart(vcv, lat, lon)
+    x94, y94, z94 = llh2xyz(lat, lon, ell_ht_in)
+    x20, y20, z20, vcv20 = conform7(""",
+         new="""        vcv = vcv_local2cart(vcv, lat, lon)
+    x94, y94, z94 = llh2xyz(lat, lon)
+    x20, y20, z20, vcv20 = conform7(""", note='ell_ht not passed to llh2xyz in the forward wrapper (height offset of the result)'),
+    dict(id='mga-vcv-frame', props=['C13'], file='geodepy/transform.py',
+         old="""    lat, lon, ell_ht_out = xyz2llh(x20, y20, z20)
+    if vcv20 is not None:
+        vcv20 = vcv_cart2local(vcv20, lat, lon)""",
+         new="""    lat2, lon2, ell_ht_out = xyz2llh(x20, y20, z20)
+    if vcv20 is not None:
+        vcv20 = vcv_cart2local(vcv20, lat + 0.5, lon)
+    lat, lon = lat2, lon2""", note='covariance rotated in the wrong local frame'),
+    # ---- C15 ------------------------------------------------------------------------------------------------------------
+    dict(id='crd-nval-sign', props=['C15'], file='geodepy/coord.py', old="                            ell_ht - self.nval)", new="                            ell_ht + self.nval)", note='H = h + N'),
+    dict(id='crd-hemi', props=['C15'], file='geodepy/coord.py', old="        if hemi == 'North':\n            hemi_north = True", new="        if hemi == 'North' and zone > 30:\n            hemi_north = True",
+         note='hemisphere flag wrong in the western half of the world'),
+    dict(id='crd-zero-h', props=['C15'], file='geodepy/coord.py', old="            if self.orth_ht is not None:  # Only N Value", new="            if self.orth_ht:  # Only N Value", note='baseline defect restored: H = 0.0 drops N'),
+    # ---- C16 ------------------------------------------------------------------------------------------------------------
+    dict(id='st-rot-sign', props=['C16'], file='geodepy/statistics.py', old="         [0.0, cos(rlat), sin(rlat)]]", new="         [0.0, -cos(rlat), sin(rlat)]]", note='sign in the rotation matrix'),
+    dict(id='st-rvrt', props=['C16'], file='geodepy/statistics.py', old="    vcv_local = rot_matrix.transpose() @ vcv_cart @ rot_matrix", new="    vcv_local = rot_matrix @ vcv_cart @ rot_matrix.transpose()", note='R V R^T <-> R^T V R'),
+    dict(id='st-orient', props=['C16'], file='geodepy/statistics.py', old="    orientation = 90 - degrees(0.5 * atan2((2 * vcv[0, 1]),", new="    orientation = degrees(0.5 * atan2((2 * vcv[0, 1]),", note='90 - dropped'),
+    dict(id='st-ttable', props=['C16'], file='geodepy/statistics.py', old="2.36462, 2.30600, 2.26216,", new="2.36462, 2.30600, 2.26215,", note='one digit of the coverage table'),
+    # ---- C17 ------------------------------------------------------------------------------------------------------------
+    dict(id='nt-west-sign', props=['C17'], file='geodepy/transform.py', old="        tf_lon = lon - shifts[1] / 3600\n    else:", new="        tf_lon = lon + shifts[1] / 3600\n    else:", note='positive-west sign in the forward direction'),
+    dict(id='nt-skip', props=['C17'], file='geodepy/ntv2reader.py', old="            skip_bytes += 176   # subgrid header length", new="            skip_bytes += 192   # subgrid header length", note='sub-grid header length off by 16'),
+    dict(id='nt-finest', props=['C17'], file='geodepy/ntv2reader.py', old="                if grid_object.subgrids[sg].lat_inc < inc:", new="                if grid_object.subgrids[sg].lat_inc > inc:", note='coarsest instead of finest sub-grid'),
+    dict(id='nt-units', props=['C17'], file='geodepy/transform.py', old="        tf_lat = lat - shifts[0] / 3600", new="        tf_lat = lat - shifts[0] / 3660", note='unit of the latitude shift in the reverse direction'),
+    # ---- C18 ------------------------------------------------------------------------------------------------------------
+    dict(id='snx-count', props=['C18'], file='geodepy/gnss.py', old="        num_params = int(old_num_params) - num_stn_params * num_stns_to_remove", new="        num_params = int(old_num_params) - num_stn_params * (num_stns_to_remove - 1) - 3",
+         note='header count wrong when velocities are present'),
+    dict(id='snx-u-index', props=['C18'], file='geodepy/gnss.py', old="                        if j+i not in skip:", new="                        if j+i+1 not in skip:", note='j+i -> j+i+1 in the sub-matrix extraction'),
+    dict(id='snx-pad', props=['C18'], file='geodepy/gnss.py', old="    seconds = '{:05d}'.format(int(seconds))", new="    seconds = '{:d}'.format(int(seconds))", note='baseline defect restored: creation-time seconds not padded (time of day)'),
+    # ---- C19 ------------------------------------------------------------------------------------------------------------
+    dict(id='sv-va-swap', props=['C19'], file='geodepy/survey.py', old="            zenith_angle = radians(270 - zenith_angle)", new="            zenith_angle = radians(zenith_angle - 180)", note='sin/cos swapped for zenith angles in 180..360'),
+    dict(id='sv-wrap', props=['C19'], file='geodepy/convert.py', old="        if theta >= 360:\n            theta -= 360", new="        if theta > 360:\n            theta -= 360", note='baseline defect restored: bearing 360.0'),
+    dict(id='sv-humidity', props=['C19'], file='geodepy/survey.py', old="    if rel_humidity is not None:\n        wet_temp = dry_temp", new="    if rel_humidity:\n        wet_temp = dry_temp", note='0 % humidity read as "use the wet bulb"'),
 ]
